@@ -18,6 +18,8 @@
 //!                from the object type outwards, the global is declared with the last name; N = the typedefs live in
 //!                `namespace TN<i>`; k = `const` written on the global; x = `extern` written; p = the template argument
 //!                of the object type goes through a typedef.  The declarator dimensions of `arr` wrap the named type.
+//!                j (joined: a further declarator of the previous resource's declaration, `T a.., b..;` — type, storage,
+//!                attributes are shared, dimensions / register annotation / static sampler are per declarator)
 //!   helper   : name:uses:calls:statics[:opts]   comma separated indices; a use may carry a shape letter (`3w` = inside a
 //!                while condition, see `SHAPES`); opts: r (returns int), d<uses> (parameters whose default value reads
 //!                these resources), fd (declared before all definitions; also for entries)
@@ -188,9 +190,31 @@ pub struct XRes {
     pub sprops: u32,
     pub ns: bool,
     pub spell: Spelling,
+    pub joined: bool,
 }
 
 impl XRes {
+    /// what the attributes in front of a declaration say about the bind group (shared by all its declarators)
+    pub fn attr_group(&self) -> Option<(GSpell, u32)> {
+        match (self.gspell, self.group) {
+            (GSpell::Reg, _) | (_, None) => None,
+            (s, Some(g)) => Some((s, g)),
+        }
+    }
+
+    /// may `self` be a further declarator of the declaration `head` starts
+    pub fn joins(&self, head: &XRes) -> bool {
+        self.kind == head.kind
+            && self.kind != "cbuffer"
+            && self.stat == head.stat
+            && self.spell == head.spell
+            && self.bl == head.bl
+            && !self.ns
+            && !head.ns
+            && self.vk_index == head.vk_index
+            && self.attr_group() == head.attr_group()
+    }
+
     /// all array dimensions of the global's type, outermost first: the declarator's, then the typedefs'
     pub fn dims_all(&self) -> Vec<Option<u32>> {
         let mut d: Vec<Option<u32>> = match self.arr {
@@ -230,6 +254,7 @@ impl XRes {
             sprops: 0,
             ns: false,
             spell: Spelling::default(),
+            joined: false,
         }
     }
 }
@@ -425,6 +450,9 @@ impl Case {
                 if !r.spell.is_plain() {
                     o.push(r.spell.encode());
                 }
+                if r.joined {
+                    o.push("j".into());
+                }
                 with_opts(base, o)
             })
             .collect();
@@ -581,6 +609,7 @@ impl Case {
                     "gv" => r.gspell = GSpell::Vk,
                     "go" => r.gspell = GSpell::Over,
                     "ns" => r.ns = true,
+                    "j" => r.joined = true,
                     s if s.starts_with("ri") => r.reg_index = Some(s[2..].parse().ok()?),
                     s if s.starts_with("vi") => r.vk_index = Some(s[2..].parse().ok()?),
                     s if s.starts_with("sp") => r.sprops = s[2..].parse().ok()?,
@@ -606,6 +635,9 @@ impl Case {
             }
             // a struct or a multi-dimensional array accepts no register annotation
             if (r.kind == "struct" || matches!(r.arr, ArrLen::Nested(..))) && (r.reg_index.is_some() || matches!(r.gspell, GSpell::Reg | GSpell::Over)) {
+                return None;
+            }
+            if r.joined && !res.last().is_some_and(|h: &XRes| r.joins(h)) {
                 return None;
             }
             res.push(r);
@@ -824,6 +856,7 @@ impl Case {
         }
     }
 
+    /// one declaration: resource `i` and the resources joined to it as further declarators
     fn render_resource(&self, i: usize, r: &XRes, s: &mut String) {
         let (typedefs, type_name) = match type_of_kind(&r.kind) {
             Some(t) if r.kind != "cbuffer" => r.spell.render(i, t),
@@ -836,9 +869,8 @@ impl Case {
         if r.bl {
             s.push_str("[[rssl::bindless]] ");
         }
-        let mut suffix = String::new();
-        let letter = register_letter(&r.kind);
-        let reg = |index: Option<u32>, space: Option<u32>| -> String {
+        let reg = |x: &XRes, index: Option<u32>, space: Option<u32>| -> String {
+            let letter = register_letter(&x.kind);
             let mut parts = Vec::new();
             if let Some(k) = index {
                 parts.push(format!("{}{}", letter, k));
@@ -848,26 +880,24 @@ impl Case {
             }
             if parts.is_empty() { String::new() } else { format!(" : register({})", parts.join(", ")) }
         };
+        // the register annotation of one declarator
+        let suffix_of = |x: &XRes| -> String {
+            match (x.gspell, x.group) {
+                (GSpell::Reg, Some(g)) => reg(x, x.reg_index, Some(g)),
+                (GSpell::Over, Some(g)) => reg(x, x.reg_index, Some(g + 1)),
+                _ => reg(x, x.reg_index, None),
+            }
+        };
         match (r.gspell, r.group) {
-            (GSpell::Attr, Some(g)) => {
-                s.push_str(&format!("[[rssl::bind_group({})]] ", g));
-                suffix = reg(r.reg_index, None);
-            }
-            (GSpell::Reg, Some(g)) => suffix = reg(r.reg_index, Some(g)),
-            (GSpell::Over, Some(g)) => {
-                s.push_str(&format!("[[rssl::bind_group({})]] ", g));
-                suffix = reg(r.reg_index, Some(g + 1));
-            }
-            (GSpell::Vk, Some(g)) => {
-                s.push_str(&format!("[[vk::binding({}, {})]] ", r.vk_index.unwrap_or(0), g));
-                suffix = reg(r.reg_index, None);
-            }
-            (_, None) => suffix = reg(r.reg_index, None),
+            (GSpell::Attr, Some(g)) | (GSpell::Over, Some(g)) => s.push_str(&format!("[[rssl::bind_group({})]] ", g)),
+            (GSpell::Vk, Some(g)) => s.push_str(&format!("[[vk::binding({}, {})]] ", r.vk_index.unwrap_or(0), g)),
+            _ => {}
         }
         if let (Some(k), false) = (r.vk_index, r.gspell == GSpell::Vk && r.group.is_some()) {
             s.push_str(&format!("[[vk::binding({})]] ", k));
         }
         if r.kind == "cbuffer" {
+            let suffix = suffix_of(r);
             if r.empty {
                 s.push_str(&format!("cbuffer {}{} {{}}", r.name, suffix));
             } else {
@@ -883,16 +913,27 @@ impl Case {
             if r.spell.const_kw {
                 s.push_str("const ");
             }
-            s.push_str(&format!("{} {}", type_name, r.name));
-            match r.arr {
-                ArrLen::No => {}
-                ArrLen::Sized(n) => s.push_str(&format!("[{}]", n)),
-                ArrLen::Unsized => s.push_str("[]"),
-                ArrLen::Nested(a, b) => s.push_str(&format!("[{}][{}]", a, b)),
-            }
-            s.push_str(&suffix);
-            if r.ss {
-                s.push_str(&format!(" = StaticSampler {{ {} }}", super::state::sampler_props(r.sprops).0));
+            s.push_str(&format!("{} ", type_name));
+            let mut k = i;
+            loop {
+                let x = &self.res[k];
+                s.push_str(&x.name);
+                match x.arr {
+                    ArrLen::No => {}
+                    ArrLen::Sized(n) => s.push_str(&format!("[{}]", n)),
+                    ArrLen::Unsized => s.push_str("[]"),
+                    ArrLen::Nested(a, b) => s.push_str(&format!("[{}][{}]", a, b)),
+                }
+                s.push_str(&suffix_of(x));
+                if x.ss {
+                    s.push_str(&format!(" = StaticSampler {{ {} }}", super::state::sampler_props(x.sprops).0));
+                }
+                k += 1;
+                if k < self.res.len() && self.res[k].joined {
+                    s.push_str(", ");
+                } else {
+                    break;
+                }
             }
             s.push(';');
         }
@@ -917,7 +958,9 @@ impl Case {
         }
         s.push_str("struct MeshVertex { float4 position : SV_Position; };\nstruct TaskPayload { uint start_location; };\ngroupshared TaskPayload lds_payload;\n");
         for (i, r) in self.res.iter().enumerate() {
-            self.render_resource(i, r, &mut s);
+            if !r.joined {
+                self.render_resource(i, r, &mut s);
+            }
         }
         let helper_sig = |i: usize, h: &XFn, with_defaults: bool| -> String {
             let mut params: Vec<String> = (0..self.overload_arity(i)).map(|k| format!("int p{}", k)).collect();
